@@ -134,7 +134,13 @@ class Model:
                 if s[0] == "g1":
                     seq.append(s[1])
                 elif s[0] == "w":
+                    # a wrapper with one noise object unwraps to its gates plus a noise-carrying Identity, applied
+                    # after the gates ("After gate") or before them
+                    if len(s) > 4 and s[4] == "noise_before":
+                        seq.append("I")
                     seq.extend(reversed(s[1]))
+                    if len(s) > 4 and s[4] == "noise_after":
+                        seq.append("I")
                 else:
                     seq.append((s[0], s[1], n))
             out[key] = seq
@@ -151,6 +157,8 @@ def resolve(m, ok, names, a):
         return ["g1", gq.NAMES1[a[0] % 7], t, r]
     if ok == "w":
         t, r = regs[a[1] % nq]
+        if a[0] % 5 == 0:
+            return ["w", list(names), t, r, "noise_after" if a[0] % 2 else "noise_before"]
         return ["w", list(names), t, r]
     if ok in ("g2", "cc"):
         if nq < 2:
